@@ -202,7 +202,7 @@ func c03SaveContentRule(c *eng.Ctx, k *kvAnalysis, rule string) {
 				return
 			}
 			fields, al, ok := eng.LiteralFields(eng.Origin(arg))
-			if !ok || al == nil || !eng.IsNamed(al.Type(), "db", "wrapped") {
+			if !ok || al == nil || !eng.IsNamed(al.Type(), "db", dbTypeName(c.P, "wrapped")) {
 				c.Undecided(rule, f, in.Pos(), site, "marshalled value is not a db.wrapped literal: "+eng.ValStr(arg))
 				return
 			}
@@ -217,13 +217,9 @@ func c03SaveContentRule(c *eng.Ctx, k *kvAnalysis, rule string) {
 			}
 			c.Ok(rule, f, in.Pos(), "wrapped.DB", "result of kv.dekCipher.Encrypt")
 			// context
-			ctxCall, _ := eng.TupleCall(enc.Call.Args[1])
-			okCtx := ctxCall != nil && eng.CalleeIs(&ctxCall.Call, "db", "aeadContextDB")
-			if okCtx {
-				cv, isC := eng.ConstInt(ctxCall.Call.Args[0])
-				okCtx = isC && cv == schema
-			}
-			c.Check(okCtx, rule, f, in.Pos(), "Encrypt associated data", "aeadContextDB(schema const)", "associated data = "+eng.ValStr(enc.Call.Args[1]))
+			tmpl, _, okT := eng.StrTemplate(enc.Call.Args[1])
+			wantCtx := "setec database v" + itoa(int(schema))
+			c.Check(okT && tmpl == wantCtx, rule, f, in.Pos(), "Encrypt associated data", "the bytes \""+wantCtx+"\" (database context of the schema constant)", "associated data = "+eng.ValStr(enc.Call.Args[1])+" evaluates to \""+tmpl+"\"")
 			// plaintext
 			parg, _, ok := marshalArg(enc.Call.Args[0])
 			if !ok {
@@ -231,7 +227,7 @@ func c03SaveContentRule(c *eng.Ctx, k *kvAnalysis, rule string) {
 				return
 			}
 			pf, pal, ok := eng.LiteralFields(eng.Origin(parg))
-			if !ok || pal == nil || !eng.IsNamed(pal.Type(), "db", "persist") {
+			if !ok || pal == nil || !eng.IsNamed(pal.Type(), "db", dbTypeName(c.P, "persist")) {
 				c.Bad(rule, f, in.Pos(), "Encrypt plaintext", want, "marshalled value is "+eng.ValStr(parg))
 				return
 			}
@@ -309,7 +305,7 @@ func c03OpenReadOnly(c *eng.Ctx, k *kvAnalysis) {
 // R-C03-4
 func c03Wire(c *eng.Ctx, k *kvAnalysis) {
 	p := c.P
-	w, ps := p.Named("db", "wrapped"), p.Named("db", "persist")
+	w, ps := p.Named("db", dbTypeName(c.P, "wrapped")), p.Named("db", dbTypeName(c.P, "persist"))
 	if w == nil || ps == nil {
 		c.Undecided("R-C03-4", nil, 0, "db.wrapped / db.persist", "type anchors do not resolve")
 		return
@@ -335,7 +331,7 @@ func c03Wire(c *eng.Ctx, k *kvAnalysis) {
 				return
 			}
 			fr, _, isF := eng.LoadedField(x)
-			if !isF || !fr.Is("db", "wrapped", "Version") {
+			if !isF || !fr.Is("db", dbTypeName(c.P, "wrapped"), "Version") {
 				return
 			}
 			found = true
@@ -346,42 +342,8 @@ func c03Wire(c *eng.Ctx, k *kvAnalysis) {
 			c.Bad("R-C03-4", f, f.Pos(), "schema version test", "the open path tests wrapped.Version against the schema constant", "no comparison of wrapped.Version found")
 		}
 	}
-	// AEAD context strings
-	for name, want := range map[string]string{"aeadContextDEK": "setec DEK v%d", "aeadContextDB": "setec database v%d"} {
-		f := p.Func("db", name)
-		if f == nil {
-			c.Undecided("R-C03-4", nil, 0, "db."+name, "anchor does not resolve")
-			continue
-		}
-		ok := false
-		detail := "no fmt.Sprintf with a constant format found"
-		for _, r := range eng.Returns(f) {
-			rv := eng.RetVals(r)
-			o := eng.OriginConv(rv[0])
-			call, isCall := o.(*ssa.Call)
-			fmtArgs := []ssa.Value(nil)
-			switch {
-			case isCall && eng.CalleeIs(&call.Call, "fmt", "Sprintf"):
-				fmtArgs = call.Call.Args
-			case isCall && eng.CalleeIs(&call.Call, "fmt", "Appendf") && eng.IsNilConst(eng.Origin(call.Call.Args[0])):
-				fmtArgs = call.Call.Args[1:] // appended to nil: the same bytes as []byte(Sprintf(...))
-			}
-			if fmtArgs != nil {
-				fs, isC := eng.ConstString(fmtArgs[0])
-				pa := eng.Path{Blocks: []*ssa.BasicBlock{call.Block()}}
-				el, _ := pa.SliceElems(fmtArgs[1])
-				argOK := len(el) == 1 && eng.Origin(el[0]) == f.Params[0]
-				if isC && fs == want && argOK {
-					ok = true
-				} else {
-					detail = "format " + fs + " args " + eng.ValStr(fmtArgs[1])
-				}
-			} else {
-				detail = "returns " + eng.ValStr(rv[0])
-			}
-		}
-		c.Check(ok, "R-C03-4", f, f.Pos(), "associated-data template of "+name, want+" applied to the version parameter", detail)
-	}
+	// AEAD context strings: decided where they are used (below), by evaluating
+	// the expression handed to each of the four operations
 	// byteString text encoding: Marshal and Unmarshal use the same standard base64 encoding
 	var encs []string
 	for _, mn := range []string{"MarshalText", "UnmarshalText"} {
@@ -396,14 +358,28 @@ func c03Wire(c *eng.Ctx, k *kvAnalysis) {
 				cal := call.Call.StaticCallee()
 				if cal != nil && cal.Pkg != nil && strings.HasPrefix(cal.Pkg.Pkg.Path(), "encoding/") && cal.Signature.Recv() != nil {
 					if g := eng.GlobalLoad(call.Call.Args[0]); g != nil {
-						found = g.Pkg.Pkg.Path() + "." + g.Name() + " " + cal.Name()
+						// the size helpers (EncodedLen / DecodedLen) say nothing about the alphabet used
+						if cal.Name() == "EncodedLen" || cal.Name() == "DecodedLen" {
+							if found == "" {
+								found = g.Pkg.Pkg.Path() + "." + g.Name() + " " + cal.Name()
+							}
+							return
+						}
+						cur := g.Pkg.Pkg.Path() + "." + g.Name() + " " + cal.Name()
+						if found != "" && !strings.HasSuffix(found, "Len") && found != cur {
+							found = found + " + " + cur // two different codecs: reported as is
+						} else {
+							found = cur
+						}
 					}
 				}
 			}
 		})
 		encs = append(encs, found)
 		want := map[string]string{"MarshalText": "encoding/base64.StdEncoding EncodeToString", "UnmarshalText": "encoding/base64.StdEncoding DecodeString"}[mn]
-		c.Check(found == want || (mn == "MarshalText" && found == "encoding/base64.StdEncoding AppendEncode") || (mn == "UnmarshalText" && found == "encoding/base64.StdEncoding AppendDecode"),
+		okEnc := map[string]bool{"encoding/base64.StdEncoding EncodeToString": true, "encoding/base64.StdEncoding AppendEncode": true, "encoding/base64.StdEncoding Encode": true}
+		okDec := map[string]bool{"encoding/base64.StdEncoding DecodeString": true, "encoding/base64.StdEncoding AppendDecode": true, "encoding/base64.StdEncoding Decode": true}
+		c.Check((mn == "MarshalText" && okEnc[found]) || (mn == "UnmarshalText" && okDec[found]),
 			"R-C03-4", f, f.Pos(), "byteString."+mn+" encoding", "standard base64 ("+want+")", "uses "+found)
 	}
 	// key template and keyset (de)serialisers; reader/writer context agreement
@@ -445,16 +421,6 @@ func c03Wire(c *eng.Ctx, k *kvAnalysis) {
 	for _, s := range need("NewBinaryReader", 1) {
 		c.Ok("R-C03-4", s.f, s.call.Pos(), "keyset.NewBinaryReader", "v1 keyset serialisation")
 	}
-	ctxFn := func(v ssa.Value) string {
-		call, _ := eng.TupleCall(v)
-		if call == nil {
-			return "<" + eng.ValStr(v) + ">"
-		}
-		if cal := eng.Callee(&call.Call); cal != nil {
-			return cal.Name()
-		}
-		return "?"
-	}
 	pair := func(a, b string, ai, bi int, want string) {
 		chk := func(list []callSite, idx int) {
 			for _, s := range list {
@@ -462,15 +428,23 @@ func c03Wire(c *eng.Ctx, k *kvAnalysis) {
 					c.Undecided("R-C03-4", s.f, s.call.Pos(), eng.CallStr(&s.call.Call), "unexpected arity")
 					continue
 				}
-				got := ctxFn(s.call.Call.Args[idx])
-				c.Check(got == want, "R-C03-4", s.f, s.call.Pos(), "associated data of "+eng.CallStr(&s.call.Call), "context from "+want+" on both the writing and the reading side", "context from "+got)
+				got, vars, okT := eng.StrTemplate(s.call.Call.Args[idx])
+				// the version is the schema constant or the (checked) version read from the file
+				okVer := true
+				for _, vv := range vars {
+					fr, _, isF := eng.LoadedField(eng.OriginX(vv))
+					if !isF || !fr.Is("db", dbTypeName(c.P, "wrapped"), "Version") {
+						okVer = false
+					}
+				}
+				c.Check(okT && okVer && (got == want+"%d" || got == want+itoa(int(schema))), "R-C03-4", s.f, s.call.Pos(), "associated data of "+eng.CallStr(&s.call.Call), "the bytes \""+want+"<schema version>\" on both the writing and the reading side (schema-v1 files stay readable)", "evaluates to \""+got+"\"")
 			}
 		}
 		chk(need(a, 1), ai)
 		chk(need(b, 1), bi)
 	}
-	pair("Encrypt", "Decrypt", 1, 1, "aeadContextDB")
-	pair("WriteWithAssociatedData", "ReadWithAssociatedData", 3, 2, "aeadContextDEK")
+	pair("Encrypt", "Decrypt", 1, 1, "setec database v")
+	pair("WriteWithAssociatedData", "ReadWithAssociatedData", 3, 2, "setec DEK v")
 }
 
 // c03LoadedState (shared with C05): on the open path the kv literal's secrets
@@ -492,7 +466,7 @@ func c03LoadedState(c *eng.Ctx, k *kvAnalysis, rule string) {
 			sv := fields[kvField(c.P, "secrets")]
 			fr, base, isF := eng.LoadedField(sv)
 			site := "kv{secrets: " + eng.ValStr(sv) + "}"
-			if !isF || !fr.Is("db", "persist", "Secrets") {
+			if !isF || !fr.Is("db", dbTypeName(c.P, "persist"), "Secrets") {
 				c.Bad(rule, f, in.Pos(), site, "loaded state is persist.Secrets as decoded from the decrypted database", "secrets = "+eng.ValStr(sv))
 				return
 			}
@@ -511,7 +485,7 @@ func c03LoadedState(c *eng.Ctx, k *kvAnalysis, rule string) {
 				}
 				dec, idx := eng.TupleCall(call.Call.Args[0])
 				if dec != nil && idx == 0 && dec.Call.IsInvoke() && dec.Call.Method.Name() == "Decrypt" {
-					if fr2, _, ok := eng.LoadedField(dec.Call.Args[0]); ok && fr2.Is("db", "wrapped", "DB") {
+					if fr2, _, ok := eng.LoadedField(dec.Call.Args[0]); ok && fr2.Is("db", dbTypeName(c.P, "wrapped"), "DB") {
 						// unmarshal error and decrypt error are checked before the literal
 						okFlow = eng.InstrDominates(call, in)
 						detail = ""
